@@ -137,6 +137,7 @@ class Log:
                 if w[1].startswith("c"):
                     c = self.conn(w[1])
                     c.peer_addr = w[2]
+                    c.peer_local = w[3] == "local=1" if len(w) > 3 else None
                     self.events.append((step, "PEER", c.n, w[2]))
             elif k == "TIMER":
                 t = self.timer(w[1])
